@@ -315,7 +315,11 @@ def run_case(case, ctx):
             f.write_bytes(raw)
             cwd, gargs, fargs = annot.place(rng, root, [f])
             holder = "New Holder"
-            if multi and rng.random() < 0.3:
+            if rng.random() < 0.04:
+                # a value that is not valid UTF-8 (it arrives with a lone surrogate) cannot be written: the run fails, the file stays
+                holder = "New " + chr(0xDCFF) + " Holder"
+                res.cell("request-that-must-fail:unencodable")
+            elif multi and rng.random() < 0.3:
                 # a holder that contains the style's own end marker cannot be written into a multi-line comment: the run
                 # fails, and a failed run leaves every byte where it was
                 holder = f"New {st['multi'][2]} Holder"
